@@ -5,7 +5,7 @@ argv[1] = JSON list of jobs {cls, body, cfg, render}; prints a JSON list of resu
 Environment (all optional):
   C15_CRASH_AUDIT=k   os._exit(97) just before the k-th file-system audit event raised inside
                       ModuleLoader.build/_load/get
-  C15_CRASH_LINE=k    os._exit(97) at the k-th LINE event inside ModuleLoader.build/_load
+  C15_CRASH_LINE=k    os._exit(97) at the k-th LINE event inside ModuleLoader.build/_load/get
   C15_RAISE_LINE=k:Exc  raise Exc (KeyboardInterrupt/MemoryError) at that LINE event instead
   C15_PARK_AUDIT=k    at the k-th audit event: create <C15_SYNC>.parked and wait for <C15_SYNC>.go
   C15_TMPNAMES=1      make tempfile names deterministic (so syscall injection can be aimed)
@@ -76,7 +76,7 @@ if K_LINE > 0 or RAISE_LINE:
     mon = sys.monitoring
     TOOL = 3
     mon.use_tool_id(TOOL, 'c15')
-    codes = {L.ModuleLoader.build.__code__, L.ModuleLoader._load.__code__}
+    codes = {L.ModuleLoader.build.__code__, L.ModuleLoader._load.__code__, L.ModuleLoader.get.__code__}
     rk, rexc = (RAISE_LINE.split(':') + [''])[:2] if RAISE_LINE else ('-1', '')
     rk = int(rk)
 
@@ -97,7 +97,7 @@ else:
         mon = sys.monitoring
         TOOL = 3
         mon.use_tool_id(TOOL, 'c15')
-        codes = {L.ModuleLoader.build.__code__, L.ModuleLoader._load.__code__}
+        codes = {L.ModuleLoader.build.__code__, L.ModuleLoader._load.__code__, L.ModuleLoader.get.__code__}
 
         def on_line(code, line):
             steps['line'] += 1
